@@ -21,8 +21,12 @@ Definition verdict_of (cur : bytes) (o : option (severity * bytes)) (v : verdict
 Record matcher_facts (m : matcher) := mkMF {
   mf_wf : bytes -> bool;
   mf_wfv : bytes -> bool;
-  mf_invalid : forall s l, m_compare m s l = Invalid <-> mf_wf s = false \/ mf_wfv l = false;
-  mf_invalid_none : forall s vs, mf_wf s = false -> m_exists m s vs = false }.
+  mf_invalid : forall s l, m_compare m s l = Invalid <-> mf_wf s = false \/ mf_wfv l = false }.
+
+(* a malformed spec admits nothing (npm, Cargo, GitHub Actions; not go.mod, where every text of the
+   pseudo-version shape is accepted as existing before it is parsed - Invalid wins over it anyway) *)
+Definition malformed_admits_nothing (m : matcher) (F : matcher_facts m) : Prop :=
+  forall s vs, mf_wf m F s = false -> m_exists m s vs = false.
 
 Definition facts_of (ign : bool) (k : key) (d : db) (m : matcher) (F : matcher_facts m) (cur : bytes) : facts :=
   mkFacts (get_latest_version ign k d) (get_dist_tag k cur d) (is_potential_dist_tag cur)
@@ -68,24 +72,38 @@ Proof. destruct o; cbn; split; intro H; try discriminate; reflexivity. Qed.
 
 Definition npm_facts : matcher_facts npm_matcher.
 Proof.
-  refine (mkMF npm_matcher (fun s => some_b (spec_parse s)) (fun l => some_b (SemVer.parse l)) _ _).
-  - intros s l. cbn [m_compare npm_matcher]. rewrite npm_compare_invalid, !some_b_false. reflexivity.
-  - intros s vs H. apply some_b_false in H. cbn. apply npm_invalid_not_exists. exact H.
+  refine (mkMF npm_matcher (fun s => some_b (spec_parse s)) (fun l => some_b (SemVer.parse l)) _).
+  intros s l. cbn [m_compare npm_matcher]. rewrite npm_compare_invalid, !some_b_false. reflexivity.
 Defined.
+Lemma npm_malformed_admits_nothing : malformed_admits_nothing npm_matcher npm_facts.
+Proof. intros s vs H. cbn in H. apply some_b_false in H. cbn. apply npm_invalid_not_exists. exact H. Qed.
 
 Definition crates_facts : matcher_facts crates_matcher.
 Proof.
-  refine (mkMF crates_matcher (fun s => some_b (cspec_parse s)) (fun l => some_b (SemVer.parse l)) _ _).
-  - intros s l. cbn [m_compare crates_matcher]. rewrite crates_compare_invalid, !some_b_false. reflexivity.
-  - intros s vs H. apply some_b_false in H. cbn. apply crates_invalid_not_exists. exact H.
+  refine (mkMF crates_matcher (fun s => some_b (cspec_parse s)) (fun l => some_b (SemVer.parse l)) _).
+  intros s l. cbn [m_compare crates_matcher]. rewrite crates_compare_invalid, !some_b_false. reflexivity.
 Defined.
+Lemma crates_malformed_admits_nothing : malformed_admits_nothing crates_matcher crates_facts.
+Proof. intros s vs H. cbn in H. apply some_b_false in H. cbn. apply crates_invalid_not_exists. exact H. Qed.
 
 Definition gha_facts : matcher_facts gha_matcher.
 Proof.
-  refine (mkMF gha_matcher (fun s => some_b (normalize_parse s)) (fun l => some_b (normalize_parse l)) _ _).
-  - intros s l. cbn [m_compare gha_matcher]. rewrite gha_compare_invalid, !some_b_false. reflexivity.
-  - intros s vs H. apply some_b_false in H. cbn. apply gha_invalid_not_exists. exact H.
+  refine (mkMF gha_matcher (fun s => some_b (normalize_parse s)) (fun l => some_b (normalize_parse l)) _).
+  intros s l. cbn [m_compare gha_matcher]. rewrite gha_compare_invalid, !some_b_false. reflexivity.
 Defined.
+Lemma gha_malformed_admits_nothing : malformed_admits_nothing gha_matcher gha_facts.
+Proof. intros s vs H. cbn in H. apply some_b_false in H. cbn. apply gha_invalid_not_exists. exact H. Qed.
+
+Definition go_facts : matcher_facts go_matcher.
+Proof.
+  refine (mkMF go_matcher (fun s => some_b (parse_go_version s)) (fun l => some_b (parse_go_version l)) _).
+  intros s l. cbn [m_compare go_matcher]. rewrite go_compare_invalid, !some_b_false. reflexivity.
+Defined.
+(* go.mod: a text of the pseudo-version shape whose base is not a version exists and is malformed at once *)
+Lemma go_malformed_admits_refuted :
+  let s := [118;120;45;50;48;50;49;48;49;48;49;48;48;48;48;48;48;45;97;98;99] in
+  mf_wf go_matcher go_facts s = false /\ m_exists go_matcher s [] = true.
+Proof. vm_compute. split; reflexivity. Qed.
 
 (* Invalid beats NotFound; resolution precedes validity; messages quote the spec as written *)
 Corollary invalid_beats_not_found ign k d m (F : matcher_facts m) cur l :
